@@ -28,7 +28,11 @@ from .runner import h
 from .wamp_harness import RouterPeer, WELCOME_ROLES
 
 KINDS = ["call", "publish", "subscribe", "unsubscribe", "register", "unregister"]
-POST_KINDS = KINDS + ["publish_plain", "publish_opts", "publish_noack", "call_opts", "subscribe_opts", "register_opts"]
+POST_KINDS = KINDS + ["publish_plain", "publish_opts", "publish_noack", "call_opts", "subscribe_opts", "register_opts",
+                      # one subscription id shared by several local handlers: first / middle / last handler unsubscribing
+                      "unsubscribe_shared_first", "unsubscribe_shared_next", "unsubscribe_shared_last",
+                      # decorated-object forms and a new join() on the dead transport
+                      "subscribe_obj", "register_obj", "join"]
 RANK = {"connect": 0, "join": 1, "leave": 2, "disconnect": 3}
 NAMES = {1: "HELLO", 2: "WELCOME", 3: "ABORT", 4: "CHALLENGE", 5: "AUTHENTICATE", 6: "GOODBYE", 8: "ERROR",
          16: "PUBLISH", 17: "PUBLISHED", 32: "SUBSCRIBE", 33: "SUBSCRIBED", 34: "UNSUBSCRIBE", 35: "UNSUBSCRIBED",
@@ -212,6 +216,8 @@ class FutRec:
     def __init__(self, ctx, kind, n, fut, issued_phase, on_err=None, reissued=False):
         self.kind, self.n, self.issued_phase = kind, n, issued_phase
         self.reissued = reissued      # issued from inside the errback of another request
+        self.fut = fut
+        self.cancelled_local = False  # the application itself cancelled the Deferred / Future while it was outstanding
         self.results = []
         self.issued_at = len(ctx.H)
         H = ctx.H
@@ -247,6 +253,37 @@ class FutRec:
     @property
     def done(self):
         return bool(self.results)
+
+
+_DECORATED = None
+
+
+def _decorated():
+    """Classes with methods decorated for subscribe(obj) / register(obj) (two URIs each)."""
+    global _DECORATED
+    if _DECORATED is None:
+        from autobahn import wamp
+
+        class Subs:
+            @wamp.subscribe("com.c06.obj.t1")
+            def h1(self, *a, **k):
+                pass
+
+            @wamp.subscribe("com.c06.obj.t2")
+            def h2(self, *a, **k):
+                pass
+
+        class Procs:
+            @wamp.register("com.c06.obj.p1")
+            def p1(self, *a, **k):
+                return 1
+
+            @wamp.register("com.c06.obj.p2")
+            def p2(self, *a, **k):
+                return 2
+
+        _DECORATED = (Subs, Procs)
+    return _DECORATED
 
 
 def _is_future(x):
@@ -292,6 +329,7 @@ class Life:
         self.reg = None
         self.sub2 = None              # spares: what a re-issued unsubscribe / unregister acts on
         self.reg2 = None
+        self.shared = []              # >= 2 handler subscriptions that share ONE subscription id (same topic subscribed repeatedly)
         self.checked = 0              # deciding observations made in this case
         self.nfut = 0
         self.leave_checked_after = False
@@ -315,6 +353,10 @@ class Life:
              "steps": self.case.get("steps"), "history": self.render()}
         d.update(detail)
         self.R.violation("C06/" + key, what, d, self.case)
+
+    def cancel_pattern(self):
+        """Outstanding requests in issue order, '*' = cancelled by the application while outstanding."""
+        return ",".join(f.kind + ("*" if f.cancelled_local else "") for f in self.futs)
 
     def tclosing(self):
         ep = self.rp.ep
@@ -535,14 +577,18 @@ class Life:
         self.leave_checked_after = True
         if self.modes["onLeave"] not in DEFAULT_ONLEAVE_RAN:
             return
+        beside = "/beside-locally-cancelled" if any(f.cancelled_local for f in self.futs) else ""
         for f in self.futs:
             if f.reissued:
                 continue      # issued from an errback during the sweep itself: due when the transport is gone
             self.R.count("pending_after_leave_checked")
+            if beside and not f.cancelled_local:
+                self.R.count("pending_after_leave_beside_cancelled_checked")
             self.checked += 1
             if not f.done:
-                self.v("pending-after-leave/%s/%s" % (f.kind, why),
-                       "%s request still pending after the default onLeave ran (%s)" % (f.kind, why))
+                self.v("pending-after-leave/%s/%s%s" % (f.kind, why, beside),
+                       "%s request still pending after the default onLeave ran (%s)%s" % (
+                           f.kind, why, "; the application had cancelled other outstanding requests: %s" % self.cancel_pattern() if beside else ""))
 
     def illegal_msg(self, name):
         base = name.split("@")[0]
@@ -701,6 +747,15 @@ class Life:
         rs = FutRec(self, "setup-subscribe", -1, fs, self.phase)
         rr = FutRec(self, "setup-register", -2, fr, self.phase)
         rs2 = rr2 = None
+        rsh = []
+        try:
+            # the same topic subscribed three times: the broker answers with ONE subscription id, the session keeps
+            # a list of handler subscriptions for it (only the last one to go talks to the broker)
+            for i in range(3):
+                rsh.append(FutRec(self, "setup-subscribe", -10 - i,
+                                  s.subscribe(lambda *a, **k: None, "com.c06.topic.shared"), self.phase))
+        except Exception as e:
+            self.H.append(("api-raise", "setup", type(e).__name__))
         if spares:
             try:
                 rs2 = FutRec(self, "setup-subscribe", -3, s.subscribe(lambda *a, **k: None, "com.c06.topic.spare"), self.phase)
@@ -708,7 +763,8 @@ class Life:
             except Exception as e:
                 self.H.append(("api-raise", "setup", type(e).__name__))
         self.sync()
-        ids = {"com.c06.topic": 9001, "com.c06.proc": 9002, "com.c06.topic.spare": 9003, "com.c06.proc.spare": 9004}
+        ids = {"com.c06.topic": 9001, "com.c06.proc": 9002, "com.c06.topic.spare": 9003, "com.c06.proc.spare": 9004,
+               "com.c06.topic.shared": 9005}
         for e in self.H[n:]:
             if e[0] == "tx" and e[1] == "SUBSCRIBE":
                 self.H.append(("rx", "SUBSCRIBED"))
@@ -725,6 +781,10 @@ class Life:
             self.sub2 = rs2.results[0][1]
         if rr2 and rr2.results and rr2.results[0][0] == "ok":
             self.reg2 = rr2.results[0][1]
+        sh = [r.results[0][1] for r in rsh if r.results and r.results[0][0] == "ok"]
+        if len(sh) == 3 and len(set(x.id for x in sh)) == 1:
+            self.shared = sh
+            self.R.count("shared_subscription_set_up")
 
     RETRY_OTHER = {"call": "publish", "publish": "subscribe", "subscribe": "register", "register": "call",
                    "unsubscribe": "unregister", "unregister": "unsubscribe"}
@@ -743,13 +803,38 @@ class Life:
             else:
                 self.R.seen("reissue_outcomes", "%s/%s" % (kind, r))
 
+    def _cancel_next(self, rec):
+        """Runs INSIDE the errback of ``rec`` while the library fails the outstanding requests: the application gives
+        up on ONE other request that is still pending (the next one in issue order, cyclically) by cancelling its
+        Deferred / Future.  That entry is complete by the time the library's sweep reaches it; all the others are due."""
+        if rec.cancelled_local:
+            return      # a cancellation does not cascade
+        n = len(self.futs)
+        i0 = self.futs.index(rec) if rec in self.futs else 0
+        for j in range(1, n):
+            f = self.futs[(i0 + j) % n]
+            if f.done or f.cancelled_local or f.reissued or (not txaio.using_twisted and f.fut.done()):
+                continue
+            self.H.append(("redo", "cancel-in-errback:%s" % f.kind))
+            f.cancelled_local = True
+            self.R.count("cancelled_local")
+            self.R.count("cancelled_in_errback")
+            try:
+                f.fut.cancel()
+            except Exception as e:
+                self.H.append(("api-raise", "cancel", type(e).__name__))
+            return
+
     def issue(self, kinds, note="req", retry=None, tag="do", reissued=False):
         """Issue one request per kind and leave it unanswered.  Returns [(kind, 'raised'|FutRec|None)].
         ``retry``: 'same' | 'other' - the errback of each request re-issues one request (once)."""
         from autobahn.wamp.types import PublishOptions
         s = self.session
         out = []
-        on_err = (lambda rec: self._reissue(rec, retry)) if retry else None
+        if retry == "cancel_next":
+            on_err = self._cancel_next
+        else:
+            on_err = (lambda rec: self._reissue(rec, retry)) if retry else None
         for k in kinds:
             self.H.append((tag, "%s:%s" % (note, k)))
             try:
@@ -782,6 +867,18 @@ class Life:
                         out.append((k, None))
                         continue
                     f = sub.unsubscribe()
+                elif k.startswith("unsubscribe_shared_"):
+                    i = {"first": 0, "next": 1, "last": 2}[k.rsplit("_", 1)[1]]
+                    if len(self.shared) != 3 or not self.shared[i].active:
+                        out.append((k, None))
+                        continue
+                    f = self.shared[i].unsubscribe()
+                elif k == "subscribe_obj":
+                    f = s.subscribe(_decorated()[0]())
+                elif k == "register_obj":
+                    f = s.register(_decorated()[1]())
+                elif k == "join":
+                    f = s.join("realm1")
                 elif k == "unregister":
                     reg = next((x for x in (self.reg, self.reg2) if x is not None and x.active), None)
                     if reg is None:
@@ -810,6 +907,29 @@ class Life:
         self.issue(kinds, retry=retry)
         self.sync()
         self.R.count("requests_issued", len(kinds))
+
+    def do_cancel(self, mask):
+        """The APPLICATION gives up on outstanding requests: it cancels their Deferred / Future (d.cancel(), a fired
+        d.addTimeout(), asyncio.wait_for() timing out, task cancellation).  ``mask``: bit i = the i-th outstanding
+        request in issue order.  The library keeps such a request in its table (a cancelled call until the router
+        confirms the CANCEL with ERROR; the other kinds until the reply arrives) - the scripted router does not
+        answer, so the completed entry is still there when the session ends.  Every OTHER outstanding request
+        must still be failed then."""
+        if self.rp.ep.lost:
+            return
+        live = [f for f in self.futs if not f.done]
+        for i, f in enumerate(live):
+            if not (mask >> i) & 1 or f.done:
+                continue
+            self.H.append(("do", "cancel:%s" % f.kind))
+            try:
+                f.fut.cancel()
+            except Exception as e:
+                self.H.append(("api-raise", "cancel", type(e).__name__))
+            f.cancelled_local = True
+            self.R.count("cancelled_local")
+            self.R.count("cancelled_local_" + f.kind)
+            self.sync()      # asyncio: the canceller (CANCEL on the wire) runs one loop iteration later
 
     # ------------------------------------------------------------------ transport
     def complete_close(self):
@@ -919,14 +1039,21 @@ class Life:
             R.count("leave_observer_checked")
             if self.count_cb("obs", "leave") == 0:
                 self.v("leave-observer-missing/%s" % self.end_reason, "onLeave returned normally but 'leave' observers did not fire")
-        # -- nothing may remain pending
+        # -- nothing may remain pending (requests the application cancelled itself are complete; all OTHERS are due)
+        beside = "/beside-locally-cancelled" if any(f.cancelled_local for f in self.futs) else ""
+        if beside:
+            R.seen("cancel_patterns", self.cancel_pattern())
         for f in self.futs:
             R.count("pending_checked_" + f.kind)
+            if beside and not f.cancelled_local:
+                R.count("pending_checked_beside_cancelled")
+                R.count("pending_checked_beside_cancelled_" + f.kind)
             self.checked += 1
             if not f.done:
-                self.v("pending-after-end/%s/%s" % (f.kind, self.end_reason),
-                       "%s request issued in phase '%s' is still pending after the transport is gone (session end: %s)" % (
-                           f.kind, f.issued_phase, self.end_reason))
+                self.v("pending-after-end/%s/%s%s" % (f.kind, self.end_reason, beside),
+                       "%s request issued in phase '%s' is still pending after the transport is gone (session end: %s)%s" % (
+                           f.kind, f.issued_phase, self.end_reason,
+                           "; the application had cancelled other outstanding requests: %s" % self.cancel_pattern() if beside else ""))
             elif f.results[0][0] == "ok" and self.end_reason and not self.end_reason.startswith("illegal"):
                 self.v("pending-after-end/%s/completed-without-reply" % f.kind,
                        "%s request completed successfully although the router never replied" % f.kind)
@@ -949,7 +1076,7 @@ class Life:
                 R.seen("api_after_end_outcomes", kind + "/raised")
                 continue
             if isinstance(r, str):
-                self.v("api-after-end/%s/%s" % (kind, r), "%s() after the end returned %s instead of failing" % (kind, r))
+                self.v("api-after-end/%s/%s" % (kind, r), "%s() after the end %s instead of failing" % (kind, r.replace("-", " a ", 1)))
                 continue
             self.futs.remove(r)
             if not r.done:
